@@ -379,7 +379,7 @@ def check(pid, tier, seed, replay=None):
     fp_old = load_fp().get(pid, {})
     changed = sorted(q for q in fp_now if fp_old.get(q) != fp_now[q])
     eff_tier = tier
-    if changed and tier == "quick" and fp_old:
+    if changed and tier == "quick" and fp_old and not os.environ.get("VERIF_NO_ESCALATE"):
         eff_tier = "thorough"
         notes.append(f"escalated to thorough sweep: source changed in {changed}")
 
@@ -599,6 +599,8 @@ def main():
     ap.add_argument("--replay")
     ap.add_argument("--setup", action="store_true")
     ap.add_argument("--update-fingerprints", action="store_true")
+    ap.add_argument("--dry-fingerprint", action="store_true",
+                    help="only say whether the source anchored in this property differs from the recorded fingerprints")
     a = ap.parse_args()
     try:
         if a.setup:
@@ -616,6 +618,13 @@ def main():
                 fps[pid] = fingerprint(getattr(prop, "FINGERPRINT", []))
             with open(FP_FILE, "w") as f:
                 json.dump(fps, f, indent=1, sort_keys=True)
+            return 0
+        if a.dry_fingerprint:
+            prop = load_prop(a.pid.upper())
+            now = fingerprint(getattr(prop, "FINGERPRINT", []))
+            old = load_fp().get(a.pid.upper(), {})
+            ch = sorted(q for q in now if old.get(q) != now[q])
+            print("CHANGED " + ",".join(ch) if ch else "SAME")
             return 0
         if a.tier not in ("quick", "thorough"):
             raise Infra(f"unknown tier {a.tier}")
